@@ -1,5 +1,5 @@
 (** One entry point for the extracted model runner: component number, numbers in, numbers out. *)
-From Remoc Require Import Lib.Base Run.RunCodec Run.RunRobsVec Run.RunRobsDeque Run.RunRobsList Run.RunRobsMap Run.RunRobsSet Run.RunPort Run.RunBroadcast.
+From Remoc Require Import Lib.Base Run.RunCodec Run.RunRobsVec Run.RunRobsDeque Run.RunRobsList Run.RunRobsMap Run.RunRobsSet Run.RunPort Run.RunBroadcast Run.RunIoChan.
 
 Definition run (comp : N) (inp : list N) : list N :=
   match comp with
@@ -11,5 +11,6 @@ Definition run (comp : N) (inp : list N) : list N :=
   | 134 => run_robs_map inp
   | 135 => run_robs_set inp
   | 16 => run_broadcast inp
+  | 18 => run_io inp
   | _ => [97]
   end.
